@@ -6,6 +6,7 @@ package main
 
 import (
 	"bytes"
+	"compress/gzip"
 	"context"
 	"encoding/json"
 	"errors"
@@ -135,6 +136,57 @@ type Op struct {
 	Index  int      `json:"index,omitempty"`  // delete: k-th object of the branch; revert: k-th commit of the log; -1 = a random id that does not exist
 	Src    string   `json:"src,omitempty"`    // deleteWhere predicate / query text
 	Ctrl   bool     `json:"ctrl,omitempty"`   // query: ask for control frames
+	// load: a body whose first records (Data) are fine and whose tail is damaged
+	// ("tail": broken record / truncated second stream appended after the good ones)
+	Damage  string `json:"damage,omitempty"`
+	Gzip    bool   `json:"gzip,omitempty"`    // load: gzip the body
+	Chunked bool   `json:"chunked,omitempty"` // load: send without Content-Length, a few bytes per read
+	Vectors bool   `json:"vectors,omitempty"` // compact: write vectors
+	Dryrun  bool   `json:"dryrun,omitempty"`  // vacuum
+	Accept  string `json:"accept,omitempty"`  // query: raw Accept header (format negotiation); Format is what it must resolve to
+}
+
+// damaged appends a broken tail in the syntax of the format after the good records.
+func damaged(format string, good []byte) ([]byte, error) {
+	switch format {
+	case "zson", "", "auto":
+		return append(append([]byte{}, good...), []byte("{k:9999,s:\"unterminated")...), nil
+	case "zjson":
+		return append(append([]byte{}, good...), []byte("{\"type\":\"nonsense\"}\n")...), nil
+	case "json":
+		return append(append([]byte{}, good...), []byte("{\"k\":")...), nil
+	case "csv":
+		return append(append([]byte{}, good...), []byte("9999,\"unterminated,1\n")...), nil
+	case "zng":
+		more, err := encodeData("zng", []string{`{k:9998,s:"x",n:1}`, `{k:9999,s:"y",n:2}`})
+		if err != nil {
+			return nil, err
+		}
+		return append(append([]byte{}, good...), more[:len(more)-4]...), nil
+	case "vng":
+		return append([]byte{}, good[:len(good)*2/3]...), nil
+	}
+	return nil, fmt.Errorf("harness: no damage recipe for %q", format)
+}
+
+type slowReader struct {
+	r io.Reader
+	n int
+}
+
+func (s *slowReader) Read(p []byte) (int, error) {
+	if len(p) > s.n {
+		p = p[:s.n]
+	}
+	return s.r.Read(p)
+}
+
+func gz(b []byte) []byte {
+	var buf bytes.Buffer
+	w := gzip.NewWriter(&buf)
+	w.Write(b)
+	w.Close()
+	return buf.Bytes()
 }
 
 type opResult struct {
@@ -297,8 +349,20 @@ func (s *side) exec1(op Op, res *opResult) error {
 		} else if body, err = encodeData(op.Format, op.Data); err != nil {
 			return fmt.Errorf("harness: cannot encode load data: %w", err)
 		}
+		if op.Damage != "" {
+			if body, err = damaged(op.Format, body); err != nil {
+				return err
+			}
+		}
+		if op.Gzip {
+			body = gz(body)
+		}
 		if s.remote() {
-			_, err := s.conn.Load(ctx, id, op.Branch, mediaType(op.Format), bytes.NewReader(body), msg)
+			var rd io.Reader = bytes.NewReader(body)
+			if op.Chunked {
+				rd = &slowReader{r: rd, n: 7} // not a *bytes.Reader: no Content-Length, chunked transfer
+			}
+			_, err := s.conn.Load(ctx, id, op.Branch, mediaType(op.Format), rd, msg)
 			return err
 		}
 		// direct access: the same bytes decoded by the same reader the service would use
@@ -307,7 +371,18 @@ func (s *side) exec1(op Op, res *opResult) error {
 			format = "auto"
 		}
 		zctx := zed.NewContext()
-		zr, err := anyio.NewReaderWithOpts(zctx, bytes.NewReader(body), nil, anyio.ReaderOpts{Format: format, ZNG: zngio.ReaderOpts{Validate: true}})
+		src, err := anyio.GzipReader(bytes.NewReader(body)) // as handleBranchLoad does
+		if err != nil {
+			return err
+		}
+		if format == "vng" || format == "parquet" {
+			b, err := io.ReadAll(src)
+			if err != nil {
+				return err
+			}
+			src = bytes.NewReader(b)
+		}
+		zr, err := anyio.NewReaderWithOpts(zctx, src, nil, anyio.ReaderOpts{Format: format, ZNG: zngio.ReaderOpts{Validate: true}})
 		if err != nil {
 			return err
 		}
@@ -384,10 +459,63 @@ func (s *side) exec1(op Op, res *opResult) error {
 		}
 		_, err = s.lk.Revert(ctx, id, op.Branch, cid, msg)
 		return err
+	case "compact":
+		id, err := s.poolID(op.Pool)
+		if err != nil {
+			return err
+		}
+		ids, err := s.objectIDs(op.Pool, op.Branch)
+		if err != nil {
+			return err
+		}
+		n := 2 + op.Index%3
+		if n > len(ids) {
+			n = len(ids)
+		}
+		_, err = s.lk.Compact(ctx, id, op.Branch, ids[:n], op.Vectors, msg)
+		return err
+	case "addVectors", "delVectors":
+		ids, err := s.objectIDs(op.Pool, op.Branch)
+		if err != nil {
+			return err
+		}
+		if len(ids) == 0 {
+			return errors.New("harness: no object (not found)")
+		}
+		one := []ksuid.KSUID{ids[op.Index%len(ids)]}
+		if op.Kind == "addVectors" {
+			_, err = s.lk.AddVectors(ctx, op.Pool, op.Branch, one, msg)
+		} else {
+			_, err = s.lk.DeleteVectors(ctx, op.Pool, op.Branch, one, msg)
+		}
+		return err
+	case "vacuum":
+		ids, err := s.lk.Vacuum(ctx, op.Pool, op.Branch, op.Dryrun)
+		if err != nil {
+			return err
+		}
+		res.Values = []string{fmt.Sprintf("vacuumed:%d", len(ids))}
+		return nil
 	case "query":
 		return s.query(ctx, op, res)
 	}
 	return fmt.Errorf("harness: unknown op %q", op.Kind)
+}
+
+func (s *side) objectIDs(pool, branch string) ([]ksuid.KSUID, error) {
+	strs, err := queryStrings(s.lk, nil, fmt.Sprintf("from %s@%s:objects | sort min, max, count | yield ksuid(id)", pool, branch))
+	if err != nil {
+		return nil, err
+	}
+	var out []ksuid.KSUID
+	for _, x := range strs {
+		id, err := ksuid.Parse(strings.Trim(x, `"`))
+		if err != nil {
+			return nil, err
+		}
+		out = append(out, id)
+	}
+	return out, nil
 }
 
 // query runs op.Src and renders the result in op.Format: remotely through POST /query with
@@ -405,7 +533,11 @@ func (s *side) query(ctx context.Context, op Op, res *opResult) error {
 			path = "/query?ctrl=T"
 		}
 		req := s.conn.NewRequest(ctx, http.MethodPost, path, api.QueryRequest{Query: op.Src})
-		req.Header.Set("Accept", mediaType(format))
+		if op.Accept != "" {
+			req.Header.Set("Accept", op.Accept)
+		} else {
+			req.Header.Set("Accept", mediaType(format))
+		}
 		r, err := s.conn.Do(req)
 		if err != nil {
 			return err
